@@ -15,6 +15,7 @@ FU = 'rnacos::naming::filter::InstanceFilterUtils::'
 def run(ck, fb):
     _run0(ck, fb)
     r12h(ck, fb)
+    r12j(ck, fb)
     ck.borrow('rules.c13', {'R13b': 'R12i'}, 'a live gRPC or persistent registration must not be expired by a stale heartbeat entry queued for the same address')
 
 
@@ -264,3 +265,35 @@ def r12h(ck, fb):
             d = cfg.describe_operand(g, s.args[2])
             ok = d['k'] == 'arg' and d.get('l') == 4
             ck.require(ok, 'R12h', 'get_instances_and_metadata:forwards-flag', s.where(), 'get_instances_and_metadata does not forward its only_healthy flag unchanged (%s)' % cfg.fmt_desc(d)[:40])
+
+
+def r12j(ck, fb):
+    ck.rule('R12j', 'a registration without an explicit namespace lands where queries look: wherever an Instance / ServiceKey is built from a request, '
+                    'the value stored in `namespace_id` is never the result of NamingUtils::default_group (and `group_name` never the result of '
+                    'default_namespace): the two defaulting helpers have the same signature, and a crossed one files a gRPC batch registration under '
+                    'namespace "DEFAULT_GROUP", invisible to every query that defaults to "public"')
+    n = 0
+    for name, b in fb.bodies.items():
+        if '::tests::' in name or not (name.startswith('rnacos::grpc::') or name.startswith('<rnacos::grpc::') or name.startswith('rnacos::openapi::') or name.startswith('rnacos::naming::')):
+            continue
+        dg = b.calls(r'NamingUtils::default_group$')
+        dn = b.calls(r'NamingUtils::default_namespace$')
+        if not dg and not dn:
+            continue
+        tg = Taint(b, call_src=lambda t: (t.get('f') or {}).get('d', '').endswith('NamingUtils::default_group'))
+        tn = Taint(b, call_src=lambda t: (t.get('f') or {}).get('d', '').endswith('NamingUtils::default_namespace'))
+        for (i, j, st) in b.stmts():
+            rv = st.get('rv')
+            if not rv or rv['k'] != 'agg' or not rv.get('fields'):
+                continue
+            for f, op in zip(rv['fields'], rv['ops']):
+                if f in ('namespace_id', 'namespace'):
+                    n += 1
+                    ck.require(not (tg.op_tainted(op) and not tn.op_tainted(op)), 'R12j', 'namespace-default:%s' % name, b.where(i),
+                               '%s fills %s of %s with the result of NamingUtils::default_group: a request without a namespace is filed under '
+                               '"DEFAULT_GROUP" instead of "public"' % (name.split('::')[-1], f, rv.get('adt') or rv.get('def') or 'a struct'))
+                if f in ('group_name', 'group'):
+                    n += 1
+                    ck.require(not (tn.op_tainted(op) and not tg.op_tainted(op)), 'R12j', 'group-default:%s' % name, b.where(i),
+                               '%s fills %s with the result of NamingUtils::default_namespace' % (name.split('::')[-1], f))
+    ck.floor('R12j', 'namespace / group fields filled from defaulted values', n, 4)
